@@ -190,6 +190,7 @@ func (d *driver) generate1(i int) *proto.Scenario {
 	fr := newRng(seed, 7)
 	fam := pickFamily(fr, d.fams)
 	b := newBuilder(seed, fam.name)
+	b.syncBias = d.sites.SyncSeams > 0
 	fam.gen(b, d.corpus, d.sites.MapSites)
 	b.sc.SyncPkgs = d.sites.SyncPkgs
 	b.sc.RaceExemptPkgs = d.sites.RaceExemptPkgs
@@ -565,11 +566,17 @@ func (d *driver) check(n int) int {
 	deadline := start.Add(time.Duration(envInt("VERIF_MAX_SECONDS", 6*3600)) * time.Second)
 	for w := 0; w < workers; w++ {
 		wg.Add(1)
+		wi := w
 		go func() {
 			defer wg.Done()
 			var ss *session
 			if os.Getenv("VERIF_FRESH") == "" {
 				ss = &session{x: d.x}
+				if wi%2 == 1 {
+					// every other session starts its scenario processes in a
+					// different simulated environment
+					ss.procEnv = simrt.Mix(d.seed, 0xE0+uint64(wi)) | 1
+				}
 				defer ss.close()
 			}
 			for i := range next {
